@@ -108,9 +108,61 @@ type pomFile struct {
 	Tail      string        `json:"tail,omitempty"`             // comment after </project>
 }
 
+// pomUpdate is one requested update. Name alone addresses every requirement of that
+// groupId:artifactId, the direct one and its dependencyManagement twin alike (what
+// ConstructPatches and the suggester emit). With Variant the update addresses only the
+// requirements groupId:artifactId:Type:Classifier (a Maven requirement key; Type "" = jar),
+// so that two variants of one artifact (jar and test-jar, a classifier) can be updated
+// together, to the same or to different versions. Only narrows the update to one of the
+// twins: "direct" = the requirements outside dependencyManagement, "management" = the
+// dependencyManagement requirements.
 type pomUpdate struct {
-	Name string `json:"name"` // groupId:artifactId
-	To   string `json:"to"`
+	Name       string `json:"name"` // groupId:artifactId
+	To         string `json:"to"`
+	Variant    bool   `json:"variant,omitempty"`
+	Type       string `json:"type,omitempty"`
+	Classifier string `json:"classifier,omitempty"`
+	Only       string `json:"only,omitempty"`
+}
+
+func normType(t string) string {
+	if t == "" {
+		return "jar"
+	}
+	return t
+}
+
+// matches: the update addresses the requirement key name:typ:classif.
+func (u pomUpdate) matches(name, typ, classif string) bool {
+	if u.Name != name {
+		return false
+	}
+	return !u.Variant || (normType(u.Type) == normType(typ) && u.Classifier == classif)
+}
+
+// pomUpdateIndex returns the index of the update that addresses the key, or -1.
+func pomUpdateIndex(ups []pomUpdate, name, typ, classif string) int {
+	for i, u := range ups {
+		if u.matches(name, typ, classif) {
+			return i
+		}
+	}
+	return -1
+}
+
+// checkPomUpdates: no requirement key is addressed by two updates.
+func checkPomUpdates(ups []pomUpdate) error {
+	for i, a := range ups {
+		if a.Only != "" && a.Only != "direct" && a.Only != "management" {
+			return fmt.Errorf("update of %s: only=%q", a.Name, a.Only)
+		}
+		for _, b := range ups[i+1:] {
+			if a.Name == b.Name && (!a.Variant || !b.Variant || (normType(a.Type) == normType(b.Type) && a.Classifier == b.Classifier)) {
+				return fmt.Errorf("two updates for %s", a.Name)
+			}
+		}
+	}
+	return nil
 }
 
 // pomAncestor is a local ancestor above the parent (grandparent, great-grandparent).
@@ -743,6 +795,64 @@ type pomSlot struct {
 
 func (s *pomSlot) name() string { return s.g + ":" + s.a }
 
+// isMgmt: the declaration stands in a <dependencyManagement> section.
+func (s *pomSlot) isMgmt() bool {
+	return s.origin == "management" || strings.HasSuffix(s.origin, "@management")
+}
+
+// sameKey: the same groupId:artifactId:type:classifier.
+func (s *pomSlot) sameKey(o *pomSlot) bool {
+	return s.g == o.g && s.a == o.a && normType(s.typ) == normType(o.typ) && s.classif == o.classif
+}
+
+// managesVersionless: s is a dependencyManagement entry of the effective model that gives
+// a version-less declaration outside dependencyManagement (same key) its version.
+func (an *pomAnalysis) managesVersionless(s *pomSlot) bool {
+	if !s.isMgmt() || !s.visible || s.verNode == nil {
+		return false
+	}
+	for _, x := range an.slots {
+		if x.visible && x.verNode == nil && !x.isMgmt() && x.sameKey(s) {
+			return true
+		}
+	}
+	return false
+}
+
+// pomUpdateHits: the declaration s carries the version that the update u asks to change.
+// An update of the direct requirement of a version-less declaration can only be applied
+// where its version is declared: in the dependencyManagement entry that manages it.
+func pomUpdateHits(an *pomAnalysis, u pomUpdate, s *pomSlot) bool {
+	if s.verNode == nil || !u.matches(s.name(), s.typ, s.classif) {
+		return false
+	}
+	switch u.Only {
+	case "":
+		return true
+	case "management":
+		return s.isMgmt()
+	case "direct":
+		return !s.isMgmt() || an.managesVersionless(s)
+	}
+	return false
+}
+
+// sourceSlot returns the declaration of the effective model that a requirement the reader
+// lists (key name:typ:classif, from dependencyManagement or not) takes its version from.
+func (an *pomAnalysis) sourceSlot(name, typ, classif string, mgmt bool) *pomSlot {
+	for _, wantMgmt := range []bool{false, true} {
+		if mgmt && !wantMgmt {
+			continue
+		}
+		for _, s := range an.slots {
+			if s.visible && s.verNode != nil && s.isMgmt() == wantMgmt && s.name() == name && normType(s.typ) == normType(typ) && s.classif == classif {
+				return s
+			}
+		}
+	}
+	return nil
+}
+
 type pomPropDef struct {
 	file    int
 	profile string
@@ -932,25 +1042,16 @@ func pomFileName(file int) string {
 
 // pomUpdateClasses returns the known-finding classes that the update of one package,
 // as part of the update set ups, falls in.
-func pomUpdateClasses(an *pomAnalysis, ups []pomUpdate, name string) []string {
-	to := map[string]string{}
-	for _, u := range ups {
-		to[u.Name] = u.To
-	}
-	newV, addressed := to[name]
-	if !addressed {
-		return nil
-	}
+func pomUpdateClasses(an *pomAnalysis, ups []pomUpdate, u pomUpdate) []string {
+	newV := u.To
+	mine := func(s *pomSlot) bool { return u.matches(s.name(), s.typ, s.classif) }
 	set := map[string]bool{}
 	// the same groupId:artifactId:type:classifier carries a version in several declarations
+	// (variants of one artifact that differ in type or classifier are different keys)
 	keys := map[string]int{}
 	for _, s := range an.slots {
-		if s.name() == name && s.verNode != nil {
-			t := s.typ
-			if t == "" {
-				t = "jar"
-			}
-			keys[t+"|"+s.classif]++
+		if mine(s) && s.verNode != nil {
+			keys[normType(s.typ)+"|"+s.classif]++
 		}
 	}
 	for _, n := range keys {
@@ -959,7 +1060,7 @@ func pomUpdateClasses(an *pomAnalysis, ups []pomUpdate, name string) []string {
 		}
 	}
 	for _, s := range an.slots {
-		if s.name() != name || s.verNode == nil {
+		if !mine(s) || s.verNode == nil {
 			continue
 		}
 		// white space around the coordinates of the declaration, or around the profile id /
@@ -989,12 +1090,12 @@ func pomUpdateClasses(an *pomAnalysis, ups []pomUpdate, name string) []string {
 			}
 			// the same definition is in force for a dependency that is not updated
 			for _, o := range an.slots {
-				if o == s || o.verNode == nil || o.name() == name {
+				if o == s || o.verNode == nil || mine(o) {
 					continue
 				}
 				for _, q := range placeholders(o.verLit) {
 					if an.effDef(o, q) == d {
-						if _, ok := to[o.name()]; !ok {
+						if pomUpdateIndex(ups, o.name(), o.typ, o.classif) < 0 {
 							set["c13.shared_property"] = true
 						}
 					}
@@ -1043,7 +1144,7 @@ func pomClasses(an *pomAnalysis, ups []pomUpdate) []string {
 		set[c] = true
 	}
 	for _, u := range ups {
-		for _, c := range pomUpdateClasses(an, ups, u.Name) {
+		for _, c := range pomUpdateClasses(an, ups, u) {
 			set[c] = true
 		}
 	}
@@ -1138,49 +1239,71 @@ func propC13Pom(c *pomCase) (ev.Outcome, error) {
 
 	// the update list, built the way ConstructPatches (FixVulns) or the Maven suggester
 	// (Update) build it
-	to := map[string]string{}
-	for _, u := range c.Updates {
-		if _, dup := to[u.Name]; dup {
-			return o, fmt.Errorf("bad case: two updates for %s", u.Name)
+	if err := checkPomUpdates(c.Updates); err != nil {
+		return o, fmt.Errorf("bad case: %v", err)
+	}
+	reqAttrs := func(r resolve.RequirementVersion) (typ, classif string, mgmt bool) {
+		typ, _ = r.Type.GetAttr(dep.MavenArtifactType)
+		classif, _ = r.Type.GetAttr(dep.MavenClassifier)
+		org, _ := r.Type.GetAttr(dep.MavenDependencyOrigin)
+		return typ, classif, org == "management"
+	}
+	// updOf: the update that addresses the key of a declaration
+	updOf := func(s *pomSlot) (pomUpdate, bool) {
+		if i := pomUpdateIndex(c.Updates, s.name(), s.typ, s.classif); i >= 0 {
+			return c.Updates[i], true
 		}
-		to[u.Name] = u.To
+		return pomUpdate{}, false
 	}
 	var ups []result.PackageUpdate
 	oldReqs := map[string]resolve.RequirementVersion{}
 	for _, r := range reqsIn {
 		oldReqs[mavenReqKey(r.Req)] = r.Req
 	}
-	addressed := map[string]bool{}
+	addressed := make([]bool, len(c.Updates)) // the update led to at least one PackageUpdate
 	for _, r := range reqsIn {
-		newV, ok := to[r.Req.Name]
-		if !ok {
+		typ, classif, mgmt := reqAttrs(r.Req)
+		ui := pomUpdateIndex(c.Updates, r.Req.Name, typ, classif)
+		if ui < 0 {
 			continue
 		}
+		u := c.Updates[ui]
+		if (u.Only == "direct" && mgmt) || (u.Only == "management" && !mgmt) {
+			continue
+		}
+		newV := u.To
 		old := oldReqs[mavenReqKey(r.Req)]
 		if old.Version == newV {
 			return o, fmt.Errorf("bad case: update of %s to its current version", r.Req.Name)
 		}
 		direct := false
 		for _, x := range reqsIn {
-			if x.Req.Name == r.Req.Name {
+			if mavenReqKey(x.Req) == mavenReqKey(r.Req) {
 				if org, _ := x.Req.Type.GetAttr(dep.MavenDependencyOrigin); org != "management" {
 					direct = true
 				}
 			}
 		}
-		ups = append(ups, result.PackageUpdate{Name: r.Req.Name, VersionFrom: old.Version, VersionTo: newV, Type: old.Type.Clone(), Transitive: !direct})
-		addressed[r.Req.Name] = true
+		pu := result.PackageUpdate{Name: r.Req.Name, VersionFrom: old.Version, VersionTo: newV, Type: old.Type.Clone(), Transitive: !direct}
+		if u.Only != "" {
+			// one twin only: the requirement as the reader lists it
+			pu.VersionFrom, pu.Type = r.Req.Version, r.Req.Type.Clone()
+		}
+		ups = append(ups, pu)
+		addressed[ui] = true
 	}
 	// slotHit: the declarations that carry a version and are addressed by an update
 	slotHit := map[*pomSlot]bool{}
 	for _, s := range an.slots {
-		newV, ok := to[s.name()]
-		if !ok || s.verNode == nil {
+		u, ok := updOf(s)
+		if !ok || !pomUpdateHits(an, u, s) {
 			continue
 		}
+		ui := pomUpdateIndex(c.Updates, s.name(), s.typ, s.classif)
+		newV := u.To
 		if s.visible {
-			if !addressed[s.name()] {
-				return o, fmt.Errorf("harness: %s is declared in the effective model but the reader does not list it", s.name())
+			if !addressed[ui] {
+				return o, fmt.Errorf("harness: %s is declared in the effective model but the reader does not list it (or the update addresses no requirement)", s.name())
 			}
 			slotHit[s] = true
 			continue
@@ -1190,7 +1313,7 @@ func propC13Pom(c *pomCase) (ev.Outcome, error) {
 		// those of the manifest itself (not of a parent POM: OriginalDependency looks at the
 		// base project's own declarations) whose version is literal.
 		if s.file >= 1 || strings.Contains(s.verLit, "${") {
-			if !addressed[s.name()] {
+			if !addressed[ui] {
 				return o, fmt.Errorf("bad case: update of %s (%s, declared %q), which no caller addresses", s.name(), originName(s), s.verLit)
 			}
 			continue
@@ -1208,13 +1331,11 @@ func propC13Pom(c *pomCase) (ev.Outcome, error) {
 			origin = "management"
 		}
 		ups = append(ups, result.PackageUpdate{Name: s.name(), VersionFrom: s.verLit, VersionTo: newV, Type: resolve.MavenDepType(d, origin)})
+		addressed[ui] = true
 	}
-	for s := range slotHit {
-		addressed[s.name()] = true
-	}
-	for n := range to {
-		if !addressed[n] {
-			return o, fmt.Errorf("bad case: update for %s which is not a requirement of the file", n)
+	for i, u := range c.Updates {
+		if !addressed[i] {
+			return o, fmt.Errorf("bad case: update for %s (type %q classifier %q only %q) which is not a requirement of the file", u.Name, u.Type, u.Classifier, u.Only)
 		}
 	}
 	sort.SliceStable(ups, func(i, j int) bool {
@@ -1337,7 +1458,8 @@ func propC13Pom(c *pomCase) (ev.Outcome, error) {
 		}
 		want := inVer[s]
 		if slotHit[s] {
-			want = to[s.name()]
+			u, _ := updOf(s)
+			want = u.To
 		}
 		if got != want {
 			if slotHit[s] {
@@ -1355,8 +1477,14 @@ func propC13Pom(c *pomCase) (ev.Outcome, error) {
 	exp := make([]verifhooks.Requirement, len(reqsIn))
 	copy(exp, reqsIn)
 	for i := range exp {
-		if nv, ok := to[exp[i].Req.Name]; ok {
-			exp[i].Req.Version = nv
+		typ, classif, mgmt := reqAttrs(exp[i].Req)
+		ui := pomUpdateIndex(c.Updates, exp[i].Req.Name, typ, classif)
+		if ui < 0 {
+			continue
+		}
+		// the requirement changes when the declaration it takes its version from is addressed
+		if src := an.sourceSlot(exp[i].Req.Name, typ, classif, mgmt); src == nil || slotHit[src] {
+			exp[i].Req.Version = c.Updates[ui].To
 		}
 	}
 	if w, g := reqMultiset(exp), reqMultiset(reqsOut); strings.Join(w, "\n") != strings.Join(g, "\n") {
@@ -1471,6 +1599,62 @@ func propC13Pom(c *pomCase) (ev.Outcome, error) {
 			}
 		}
 	}
+	// variants of one artifact: declarations that share groupId:artifactId and differ in
+	// type and/or classifier
+	{
+		keysOf := map[string]map[string]bool{}    // name -> keys declared
+		hitKeys := map[string]map[string]string{} // name -> key -> requested version
+		for _, s := range an.slots {
+			k := normType(s.typ) + "|" + s.classif
+			if keysOf[s.name()] == nil {
+				keysOf[s.name()] = map[string]bool{}
+			}
+			keysOf[s.name()][k] = true
+			if slotHit[s] {
+				if hitKeys[s.name()] == nil {
+					hitKeys[s.name()] = map[string]string{}
+				}
+				u, _ := updOf(s)
+				hitKeys[s.name()][k] = u.To
+			}
+		}
+		for _, s := range an.slots {
+			if len(keysOf[s.name()]) < 2 {
+				continue
+			}
+			cls["pom_variant_declarations"] = true
+			switch {
+			case s.isMgmt():
+				cls["pom_variant_in_management"] = true
+			case s.profile != "":
+				cls["pom_variant_in_profile"] = true
+			case s.file == 0 && s.origin == "":
+				cls["pom_variant_in_dependencies"] = true
+			}
+			if s.verNode == nil {
+				cls["pom_variant_versionless_managed"] = true
+			}
+			hk := hitKeys[s.name()]
+			switch {
+			case len(hk) >= 2:
+				cls["pom_upd_variants_together"] = true
+				vs := map[string]bool{}
+				for _, v := range hk {
+					vs[v] = true
+				}
+				if len(vs) == 1 {
+					cls["pom_upd_variants_together_same_version"] = true
+				} else {
+					cls["pom_upd_variants_together_different_versions"] = true
+				}
+				if u, _ := updOf(s); !u.Variant {
+					cls["pom_upd_variants_by_one_name_update"] = true
+				}
+			case len(hk) == 1:
+				cls["pom_upd_one_variant_only"] = true
+			}
+		}
+	}
 	for s := range slotHit {
 		if s.padded {
 			cls["pom_upd_padded_coordinates"] = true
@@ -1480,11 +1664,25 @@ func propC13Pom(c *pomCase) (ev.Outcome, error) {
 		}
 	}
 	for _, s := range an.slots {
-		if _, ok := to[s.name()]; !ok {
+		su, ok := updOf(s)
+		if !ok {
 			continue
 		}
 		if s.verNode == nil {
 			cls["pom_upd_versionless_managed"] = true
+			if s.visible && !s.isMgmt() {
+				switch {
+				case su.Only == "direct":
+					cls["pom_upd_versionless_direct_twin_only"] = true
+				case su.Only == "management":
+					cls["pom_upd_versionless_management_twin_only"] = true
+				default:
+					cls["pom_upd_versionless_both_twins"] = true
+				}
+				if s.profile != "" {
+					cls["pom_upd_versionless_in_profile"] = true
+				}
+			}
 			continue
 		}
 		phs := placeholders(s.verLit)
@@ -1499,7 +1697,7 @@ func propC13Pom(c *pomCase) (ev.Outcome, error) {
 			cls["pom_upd_multi_property"] = true
 		}
 		if len(phs) > 0 && slotHit[s] {
-			for _, k := range affixClasses(s.verLit, to[s.name()]) {
+			for _, k := range affixClasses(s.verLit, su.To) {
 				cls[k] = true
 			}
 			// what the writer did: rewrote the property definitions, or <version> itself
